@@ -1,14 +1,96 @@
 package props
 
 import (
+	"bytes"
+	"encoding/json"
+	"fmt"
+	"reflect"
+	"sort"
+	"strings"
+
+	"github.com/go-openapi/strfmt"
+	"github.com/go-openapi/validate"
+
+	"verif/harness/gen"
 	"verif/harness/lib"
+	"verif/harness/model"
+	"verif/harness/sut"
 )
 
-// specCase is filled in once the specification generator exists (see c12spec_impl.go).
-func (p *c12) specCase(w *lib.Worker, idx int, r *lib.Rand) lib.Case {
-	return c12SpecCase(p, w, idx, r)
-}
+var c12Fixtures map[string][]byte
 
-var c12SpecCase = func(p *c12, w *lib.Worker, idx int, r *lib.Rand) lib.Case {
-	return lib.Case{Tags: []string{"spec-level-not-built"}}
+// specCase: validating a specification never changes the bytes of the loaded document nor, for a
+// document it accepts that has no self-referential definitions, the parsed specification.
+func (p *c12) specCase(w *lib.Worker, idx int, r *lib.Rand) lib.Case {
+	if c12Fixtures == nil {
+		c12Fixtures, _ = gen.FixtureDocs(model.RepoDir())
+	}
+	var text []byte
+	what := "generated-clean"
+	switch {
+	case r.P(0.15) && len(c12Fixtures) > 0:
+		names := make([]string, 0, len(c12Fixtures))
+		for k := range c12Fixtures {
+			names = append(names, k)
+		}
+		sort.Strings(names)
+		what = "fixture:" + names[r.Intn(len(names))]
+		text = c12Fixtures[strings.TrimPrefix(what, "fixture:")]
+	case r.P(0.15):
+		g := &gen.SpecGen{R: r, Tag: fmt.Sprintf("s%d", idx)}
+		tree := g.Clean()
+		g.Apply(gen.Faults[r.Intn(len(gen.Faults))])
+		what = "generated-faulted"
+		text = gen.JSON(tree)
+	default:
+		g := &gen.SpecGen{R: r, Tag: fmt.Sprintf("s%d", idx)}
+		text = gen.JSON(g.Clean())
+	}
+	c := lib.Case{Hash: lib.Hash64(text), Nontrivial: true, Tags: []string{"spec-level", "spec:" + strings.SplitN(what, ":", 2)[0]}}
+	for _, mode := range []string{"stop", "continue", "Spec()"} {
+		doc, err := sut.LoadSpec(text)
+		if err != nil {
+			c.Tags = append(c.Tags, "does-not-load")
+			return c
+		}
+		snap, _ := sut.LoadSpec(text)
+		rawBefore := append([]byte{}, doc.Raw()...)
+		specBefore, _ := json.Marshal(doc.Spec())
+		var valid bool
+		o := sut.Guard(func() sut.Outcome {
+			switch mode {
+			case "Spec()":
+				valid = validate.Spec(doc, strfmt.Default) == nil
+			default:
+				v := validate.NewSpecValidator(doc.Schema(), strfmt.Default)
+				v.SetContinueOnErrors(mode == "continue")
+				errs, _ := v.Validate(doc)
+				valid = errs.IsValid()
+			}
+			return sut.Outcome{Valid: true}
+		})
+		c.Evals++
+		if o.Panic != "" {
+			c.Inconclusive = "panic (see C07): " + lib1(o.Panic)
+			return c
+		}
+		sample := map[string]any{"document": string(text), "what": what, "mode": mode, "accepted": valid}
+		if !bytes.Equal(rawBefore, doc.Raw()) {
+			c.Viol = &lib.Violation{What: "validation changed the raw bytes of the loaded document (" + mode + ")", Detail: sample}
+			return c
+		}
+		if valid {
+			specAfter, _ := json.Marshal(doc.Spec())
+			if !bytes.Equal(specBefore, specAfter) || !reflect.DeepEqual(doc.Spec(), snap.Spec()) {
+				sample["spec_before"], sample["spec_after"] = string(specBefore), string(specAfter)
+				c.Viol = &lib.Violation{What: fmt.Sprintf("validation changed the parsed specification of a document it accepts (%s, %s)", mode, what), Detail: sample}
+				return c
+			}
+			c.Tags = append(c.Tags, "accepted-and-compared")
+		}
+		if idx%1800 == 5 && mode == "stop" {
+			c.Sample = sample
+		}
+	}
+	return c
 }
